@@ -21,6 +21,7 @@ from concurrent.futures import ThreadPoolExecutor
 from vf import verdict
 
 VERIF = verdict.VERIF
+CASE_WATCHDOG_S = 900  # per guarded case, in shard workers
 
 
 def _dump(sink):
@@ -79,9 +80,8 @@ def main(argv):
             json.dump(_dump(sink), f, default=str)
         return 0
     shard_list = mod.shards(tier, seed) if hasattr(mod, 'shards') else [None]
-    if len(shard_list) == 1:
-        mod.run_shard(sink, tier, seed, shard_list[0])
-    else:
+    if True:
+        # every shard (also a single one) runs in its own interpreter: a crash or an endless loop in the extension ends a worker, not the check
         work = tempfile.mkdtemp(prefix=f'{prop}-', dir=os.path.join(VERIF, '.work'))
         timeout = getattr(mod, 'SHARD_TIMEOUT', 3600)
 
@@ -89,7 +89,7 @@ def main(argv):
             out = os.path.join(work, f'shard{i}.json')
             cmd = [sys.executable, '-m', 'vf.run', prop, tier, str(seed), '--shard', str(i), '--out', out]
             try:
-                p = subprocess.run(cmd, capture_output=True, text=True, timeout=timeout)
+                p = subprocess.run(cmd, capture_output=True, text=True, timeout=timeout, env=dict(os.environ, VERIF_CASE_WATCHDOG=os.environ.get('VERIF_CASE_WATCHDOG', str(CASE_WATCHDOG_S)), VERIF_CASE_FILE=out + '.case'))
                 rc, err = p.returncode, (p.stdout[-1500:] + p.stderr[-2500:])
             except subprocess.TimeoutExpired:
                 rc, err = 'timeout', ''
@@ -101,6 +101,13 @@ def main(argv):
             if rc == 0 and os.path.exists(out):
                 with open(out) as f:
                     _merge(sink, json.load(f))
+            elif rc != 'timeout' and 'Timeout (' in err and os.path.exists(out + '.case'):
+                # the per-case watchdog fired: wall-clock, so never a verdict
+                with open(out + '.case', 'rb') as cf:
+                    last_case = cf.read().decode('utf-8', 'replace').strip()
+                sink.count('case_watchdogs')
+                sink.notes.append(f'shard {i}: a case did not finish within {CASE_WATCHDOG_S}s (inconclusive for that shard): {last_case} :: ' + err[-1200:])
+                sink.require('no_case_watchdog_marker', 1)
             elif rc == 'timeout':
                 sink.count('shard_timeouts')
                 sink.notes.append(f'shard {i} hit the wall-clock watchdog ({timeout}s): inconclusive for that shard')
